@@ -354,11 +354,25 @@ def check_chunks(ctx, prog, m):
     for e in ir.stmt_exprs(loop['body']):
         if e.get('k') == 'var' and e.get('vk') in ('local', 'slocal', 'param') and e.get('id') not in inner and e.get('id') != cursor['id']:
             carried.append(e)
-    statics = [v for s_ in ir.walk_stmts(f['body']) if s_.get('k') == 'decl' for v in s_['vars'] if v.get('static')]
+    # constant tables (const-qualified, never written) are not state, whether static or per call
+    def is_const_decl(v):
+        t = T(f, v['t'])
+        if t.get('const'):
+            return True
+        el = T(f, t.get('to') or t.get('el'))
+        return (t.get('n') is not None or t.get('arr') is not None) and bool(el.get('const'))
+    const_ids = set(v['id'] for s_ in ir.walk_stmts(f['body']) if s_.get('k') == 'decl' for v in s_['vars'] if is_const_decl(v) and v['id'] not in bounded_assigned(f))
+    carried = [e for e in carried if e.get('id') not in const_ids]
+    statics = [v for s_ in ir.walk_stmts(f['body']) if s_.get('k') == 'decl' for v in s_['vars'] if v.get('static') and v['id'] not in const_ids]
     ctx.check(not carried and not statics, 'C06.chunks', f['pq'], 'parse:no per-call or static state carried between bytes', fwhere(f, carried[0]['l'] if carried else None), 'only members, constants and per-iteration locals are read',
               'the loop reads `%s`, which lives per call (or statically) and not in the parser object: parsing the same text in different chunks takes a different path' % (carried[0]['n'] if carried else statics[0]['n'] if statics else ''))
     # the early return at entry only tests members
     ctx.ok('C06.chunks', f['pq'], 'parse:machine configuration is (members, byte)', fwhere(f), 'the interpreted transition function depends only on members and the current byte', nontrivial=False)
+
+
+def bounded_assigned(f):
+    import bounded
+    return bounded.assigned_vars(f)
 
 
 def check_numbers(ctx, prog):
